@@ -48,7 +48,13 @@ def replay_file(mod, path, quiet=False):
 def run_worker(task):
     modname, unit, shard, nshards, tier, seed, out, env = task
     cmd = [sys.executable, "-m", "vlib.worker", modname, unit, str(shard), str(nshards), tier, str(seed), out]
-    p = subprocess.run(cmd, env=env, cwd=ROOT, stdout=subprocess.PIPE, stderr=subprocess.STDOUT, text=True)
+    limit = int(os.environ.get("VERIF_WORKER_TIMEOUT", "1500" if tier == "quick" else "7200"))
+    try:
+        p = subprocess.run(cmd, env=env, cwd=ROOT, stdout=subprocess.PIPE, stderr=subprocess.STDOUT, text=True, timeout=limit)
+    except subprocess.TimeoutExpired:
+        # a time budget hit is inconclusive, never a violation
+        return dict(module=modname, unit=unit, shard=shard, failures=[], log="",
+                    error="worker exceeded its %d s time budget (inconclusive)" % limit)
     if os.path.exists(out) and os.path.getsize(out):
         with open(out) as f:
             res = json.load(f)
